@@ -49,6 +49,8 @@ type c08Recipe struct {
 	InflightB  int      `json:"inflightB"`  // -1: the same set as A
 	NLog       int      `json:"nlog"`       // log recovery proposals (fake recoverable provider)
 	NCond      int      `json:"ncond"`      // conditional proposals (fake upkeep getter, sampling flow)
+	NAgedCond  int      `json:"nagedCond"`  // conditional proposals (sampling flow) created one proposal TTL earlier, too …
+	AgedReprop bool     `json:"agedReprop"` // … and sampled AGAIN shortly before the observation (no observation in between)
 	NAgedProps int      `json:"nagedProps"` // proposals created one proposal TTL earlier …
 	AgedDeltaMs int     `json:"agedDeltaMs"` // … their age at Observation time is 24h + this
 	PropInflight int    `json:"propInflight"` // proposals whose work is accepted afterwards
@@ -217,6 +219,10 @@ func c08RunWorld(t *testing.T, rc c08Recipe, em *Emitter) []c08Shot {
 	}
 	var pool []ocr2keepers.CheckResult // index space of x.pool: common, extraB, old
 	for i := 0; i < rc.NRes+rc.ExtraB+rc.NOld; i++ {
+		if rc.Layout != "max-log" && r.Chance(6) {
+			pool = append(pool, genResultOtherType(r, height-uint64(r.Intn(4)))) // neither a conditional nor a log upkeep
+			continue
+		}
 		pool = append(pool, mk(r.Chance(60) || rc.Layout == "max-log"))
 	}
 	common := pool[:rc.NRes]
@@ -318,7 +324,12 @@ func c08RunWorld(t *testing.T, rc c08Recipe, em *Emitter) []c08Shot {
 		byWid[res.WorkID] = res
 	}
 	// proposals: eligible sampling / recovery results end up in the metadata store
-	var logProps, condProps, agedProps []ocr2keepers.CheckResult
+	var logProps, condProps, agedProps, agedCond []ocr2keepers.CheckResult
+	for i := 0; i < rc.NAgedCond; i++ {
+		res := mk(false)
+		agedCond = append(agedCond, res)
+		byWid[res.WorkID] = res
+	}
 	for i := 0; i < rc.NLog; i++ {
 		res := mk(true)
 		logProps = append(logProps, res)
@@ -340,22 +351,39 @@ func c08RunWorld(t *testing.T, rc c08Recipe, em *Emitter) []c08Shot {
 
 	// ---- phase 0 (optional): proposals one proposal-TTL earlier
 	var agedAt time.Time
-	if rc.NAgedProps > 0 {
+	if rc.NAgedProps > 0 || rc.NAgedCond > 0 {
 		for _, n := range nodes {
 			n.Recov.mu.Lock()
 			for _, res := range agedProps {
 				n.Recov.payloads = append(n.Recov.payloads, payloadOf(res))
 			}
 			n.Recov.mu.Unlock()
+			n.Getter.mu.Lock()
+			for _, res := range agedCond {
+				n.Getter.upkeeps = append(n.Getter.upkeeps, payloadOf(res))
+			}
+			n.Getter.mu.Unlock()
+		}
+		if rc.NAgedCond > 0 {
+			time.Sleep(2 * time.Second) // one sampling interval
 		}
 		time.Sleep(2137 * time.Millisecond)
-		agedAt = nodes[0].seen[agedProps[0].WorkID]
+		for _, n := range nodes {
+			n.Getter.mu.Lock()
+			n.Getter.upkeeps = nil
+			n.Getter.mu.Unlock()
+		}
+		if rc.NAgedProps > 0 {
+			agedAt = nodes[0].seen[agedProps[0].WorkID]
+		} else {
+			agedAt = nodes[0].seen[agedCond[0].WorkID]
+		}
 	}
 	// ---- phase 1 (optional): results one store-TTL earlier
 	const mainPhase = 40 * time.Second
 	old := pool[rc.NRes+rc.ExtraB:]
 	var oldAt time.Time
-	if rc.NAgedProps > 0 {
+	if rc.NAgedProps > 0 || rc.NAgedCond > 0 {
 		// Observation will be at agedAt + 24h + delta; leave room for the old-results phase and the main phase
 		target := agedAt.Add(c08ProposalTTL + time.Duration(rc.AgedDeltaMs)*time.Millisecond)
 		lead := mainPhase
@@ -454,6 +482,11 @@ func c08RunWorld(t *testing.T, rc c08Recipe, em *Emitter) []c08Shot {
 		for _, res := range condProps {
 			n.Getter.upkeeps = append(n.Getter.upkeeps, payloadOf(res))
 		}
+		if rc.AgedReprop { // still eligible: the sampling flow proposes them again
+			for _, res := range agedCond {
+				n.Getter.upkeeps = append(n.Getter.upkeeps, payloadOf(res))
+			}
+		}
 		n.Getter.mu.Unlock()
 	}
 	time.Sleep(4 * time.Second) // >= one sampling interval (3 s) and several 1 s ticks
@@ -534,7 +567,7 @@ func c08RunWorld(t *testing.T, rc c08Recipe, em *Emitter) []c08Shot {
 		} else if d < 0 {
 			t.Fatalf("c08: main phase overran its budget by %v (started %v ago)", -d, time.Since(phaseStart))
 		}
-	} else if rc.NAgedProps > 0 {
+	} else if rc.NAgedProps > 0 || rc.NAgedCond > 0 {
 		target := agedAt.Add(c08ProposalTTL + time.Duration(rc.AgedDeltaMs)*time.Millisecond)
 		if d := target.Sub(time.Now()); d > 0 {
 			time.Sleep(d)
@@ -553,6 +586,13 @@ func c08RunWorld(t *testing.T, rc c08Recipe, em *Emitter) []c08Shot {
 		lens[i] = len(must(gojson.Marshal(pool[i])))
 	}
 	info := map[string]int{"bad": rc.NBad}
+	reproposed := map[string]bool{} // proposed again after the first record expired: a fresh record
+	if rc.AgedReprop {
+		for _, res := range agedCond {
+			reproposed[res.WorkID] = true
+		}
+		info["proposal-reproposed-after-expiry"] = len(agedCond)
+	}
 	nodeX := [2]c08NodeX{}
 	for i, n := range nodes {
 		x := c08NodeX{Staged: []int{}, Inflight: []string{}, Log: []JProp{}, Cond: []JProp{}, Hist: toJBKs(hists[i])}
@@ -582,7 +622,7 @@ func c08RunWorld(t *testing.T, rc c08Recipe, em *Emitter) []c08Shot {
 			if ok && now.Sub(at) > c08ProposalTTL {
 				info["proposal-expired"]++
 			}
-			if !ok || now.Sub(at) > c08ProposalTTL {
+			if !ok || (now.Sub(at) > c08ProposalTTL && !reproposed[res.WorkID]) {
 				return
 			}
 			p := toJProp(ocr2keepers.CoordinatedBlockProposal{UpkeepID: res.UpkeepID, Trigger: res.Trigger, WorkID: res.WorkID})
@@ -593,6 +633,9 @@ func c08RunWorld(t *testing.T, rc c08Recipe, em *Emitter) []c08Shot {
 			}
 		}
 		for _, res := range agedProps {
+			addProp(res)
+		}
+		for _, res := range agedCond {
 			addProp(res)
 		}
 		for _, res := range allProps {
@@ -823,6 +866,18 @@ func c08SweepEdge() []c08Recipe {
 	return out
 }
 
+// genResultOtherType: a well-formed eligible result of an upkeep whose type is neither "condition" nor "log", with a plain
+// trigger or with a log extension (validation is type agnostic for such upkeeps)
+func genResultOtherType(r *Rng, block uint64) ocr2keepers.CheckResult {
+	uid := genUpkeepIDOther(r)
+	res := genResult(r, uid, block)
+	if r.Bool() {
+		res.Trigger.LogTriggerExtension = &ocr2keepers.LogTriggerExtension{TxHash: genHash(r), Index: uint32(r.Intn(5)), BlockHash: genHash(r), BlockNumber: ocr2keepers.BlockNumber(block)}
+		res.WorkID = wg(uid, res.Trigger)
+	}
+	return res
+}
+
 func c08Edge() []c08Recipe {
 	return []c08Recipe{
 		{Seed: 1, Seqs: []uint64{9, 10, 11}, NRes: 0, Layout: "small", InflightB: -1},
@@ -846,6 +901,8 @@ func c08Edge() []c08Recipe {
 		// proposals one proposal-TTL old (24 h of virtual time)
 		{Seed: 14, Seqs: []uint64{61}, NRes: 10, Layout: "small", InflightB: -1, NLog: 3, NCond: 3, NAgedProps: 3, AgedDeltaMs: 137},
 		{Seed: 15, Seqs: []uint64{62}, NRes: 10, Layout: "small", InflightB: -1, NLog: 3, NCond: 3, NAgedProps: 3, AgedDeltaMs: -363},
+		// the instance was idle for a day (no round, no view of the conditional proposals); still-eligible upkeeps are sampled again
+		{Seed: 18, Seqs: []uint64{65}, NRes: 10, Layout: "small", InflightB: -1, NLog: 2, NCond: 2, NAgedProps: 1, NAgedCond: 3, AgedReprop: true, AgedDeltaMs: 60_000},
 		// outside the property's quantifier (perform data far beyond the on-chain cap): the trimming gives up
 		{Seed: 16, Seqs: []uint64{63}, NRes: 2, Layout: "beyond-cap", NHeavy: 2, InflightB: -1},
 		{Seed: 17, Seqs: []uint64{64}, NRes: 3000, Layout: "heavy-random", NHeavy: 400, InflightA: 40, InflightB: 10, HistA: 256, HistB: 256, WavesB: 3},
